@@ -1,0 +1,87 @@
+//! Verification hooks (compiled only with `--cfg maidsafe_safe_network_verif`).
+//! Nothing here changes behaviour; with the cfg off this module does not exist.
+//!
+//! `rpc::restart_node_service` (the daemon's restart path) constructs its OS service controller itself
+//! (`ServiceController {}`), so an external harness cannot hand it a simulated one the way it can for
+//! `ServiceManager`, `add_node` or `refresh_node_registry`. Under the verif cfg the name `ServiceController`
+//! inside that function resolves to the stand-in below. It forwards every `ServiceControl` call to the
+//! implementation installed with [`set_service_control`], and to the real
+//! `ant_service_management::control::ServiceController` while none is installed (pass-through).
+
+use ant_service_management::control::{ServiceControl, ServiceController as RealServiceController};
+use ant_service_management::error::Result;
+use service_manager::ServiceInstallCtx;
+use std::path::Path;
+use std::sync::{Arc, Mutex};
+
+type Shared = Arc<dyn ServiceControl + Send + Sync>;
+
+static CONTROL: Mutex<Option<Shared>> = Mutex::new(None);
+
+/// Install the `ServiceControl` implementation that `restart_node_service` talks to from now on.
+pub fn set_service_control(control: Shared) {
+    *CONTROL.lock().unwrap_or_else(|e| e.into_inner()) = Some(control);
+}
+
+/// Back to the real OS service controller.
+pub fn clear_service_control() {
+    *CONTROL.lock().unwrap_or_else(|e| e.into_inner()) = None;
+}
+
+fn current() -> Option<Shared> {
+    CONTROL.lock().unwrap_or_else(|e| e.into_inner()).clone()
+}
+
+/// Stand-in for `ant_service_management::control::ServiceController` (same unit-like shape).
+pub struct ServiceController {}
+
+impl ServiceControl for ServiceController {
+    fn create_service_user(&self, username: &str) -> Result<()> {
+        match current() {
+            Some(c) => c.create_service_user(username),
+            None => RealServiceController {}.create_service_user(username),
+        }
+    }
+    fn get_available_port(&self) -> Result<u16> {
+        match current() {
+            Some(c) => c.get_available_port(),
+            None => RealServiceController {}.get_available_port(),
+        }
+    }
+    fn install(&self, install_ctx: ServiceInstallCtx, user_mode: bool) -> Result<()> {
+        match current() {
+            Some(c) => c.install(install_ctx, user_mode),
+            None => RealServiceController {}.install(install_ctx, user_mode),
+        }
+    }
+    fn get_process_pid(&self, path: &Path) -> Result<u32> {
+        match current() {
+            Some(c) => c.get_process_pid(path),
+            None => RealServiceController {}.get_process_pid(path),
+        }
+    }
+    fn start(&self, service_name: &str, user_mode: bool) -> Result<()> {
+        match current() {
+            Some(c) => c.start(service_name, user_mode),
+            None => RealServiceController {}.start(service_name, user_mode),
+        }
+    }
+    fn stop(&self, service_name: &str, user_mode: bool) -> Result<()> {
+        match current() {
+            Some(c) => c.stop(service_name, user_mode),
+            None => RealServiceController {}.stop(service_name, user_mode),
+        }
+    }
+    fn uninstall(&self, service_name: &str, user_mode: bool) -> Result<()> {
+        match current() {
+            Some(c) => c.uninstall(service_name, user_mode),
+            None => RealServiceController {}.uninstall(service_name, user_mode),
+        }
+    }
+    fn wait(&self, delay: u64) {
+        match current() {
+            Some(c) => c.wait(delay),
+            None => RealServiceController {}.wait(delay),
+        }
+    }
+}
